@@ -12,7 +12,14 @@ Abstract input (small JSON):
                'wm' | 'wmi' | 'sim': None | [[numbers exact in float32]],
                'wm_dtype' | 'wmi_dtype' | 'sim_dtype': 'float32' | 'float64' (optional, default float64/float64/float32),
                'ncd': int, 'rate': float, 'offset': int,
-               'st': [template id of each spike of the probe]   (optional)}, ...]}
+               'st': [template id of each spike of the probe]   (optional)}, ...],
+   'pre': [[probe indices], ...]   (optional) HISTORY: merges done earlier IN THE SAME PROCESS over (sub)lists of the same
+                                   probe directories (any order, repetition of a list allowed), each into its own output
+                                   directory, before the merge that is observed,
+   'again': int (optional, default 1)  the observed merge is run this many times on the SAME Merger object / output dir}
+Matrix entries are stored with the dtype of their file: a value that is not exact in float32 is rounded when its
+file is float32 (mat_stored = what the file holds = what the model is given); float64 files hold full double precision
+values (0.1, 1/3, 1 + 2**-30, 1e-50 ...), so that a conversion of one probe's matrix to another probe's dtype is visible.
 Spike files: spike i of probe k has time 3 i + k, template (= cluster) st[i], amplitude 1.  Without 'st' every probe gets
 max(2, n_templates + 1) spikes that use every template.  With 'st' some templates of a probe may have no spike --
 trailing ones (the numbers of templates and max(spike_templates) + 1 then differ: the cross-property clause 27 of
@@ -82,7 +89,38 @@ def gen_probe(rng, nc=None, nt=None, ns=3, pcw=2, tfw=2, **o):
     p['tf_dtype'] = o.get('tf_dtype', p['ind_dtype'] if rng.random() < 0.6 else rng.choice(['uint32', 'int32', 'int64']))
     for name, dflt in MAT_DTYPE.items():
         p[name + '_dtype'] = o.get(name + '_dtype', dflt if rng.random() < 0.5 else rng.choice(['float32', 'float64']))
+    # full-precision entries: values that are not exact in float32 (kept as they are by a float64 file, rounded once
+    # - at materialisation - by a float32 file, see mat_stored)
+    fine = o.get('fine', rng.random() < 0.6)
+    for name in MAT_DTYPE:
+        if fine and p[name] is not None:
+            m = p[name]
+            for _ in range(rng.randint(1, max(1, len(m)))):
+                m[rng.randrange(len(m))][rng.randrange(len(m))] = rng.choice(FINE)
+            if len(m) >= 1 and rng.random() < 0.5:
+                m[0][0] = rng.choice(FINE[:6])
     return p
+
+
+# matrix entries that float32 cannot hold exactly (or at all: 1e-50 underflows to 0 in float32)
+FINE = [0.1, 1.0 / 3, -2.7, 1 + 2.0 ** -30, 0.30000000000000004, -0.7071067811865476, 123456.789, 1e-9, 1e-50, 16777217.0]
+
+
+def stored(v, dtype):
+    """the value a file of the given float dtype holds for the abstract entry v"""
+    if dtype == 'float32':
+        import struct
+        return struct.unpack('f', struct.pack('f', float(v)))[0]
+    return v
+
+
+def mat_stored(p, name):
+    """matrix `name` ('wm' | 'wmi' | 'sim') of the probe as its file holds it (None = no file)"""
+    m = p.get(name)
+    if m is None:
+        return None
+    dt = p.get(name + '_dtype', MAT_DTYPE[name])
+    return [[stored(v, dt) for v in row] for row in m]
 
 
 MAT_DTYPE = {'wm': 'float64', 'wmi': 'float64', 'sim': 'float32'}
@@ -165,26 +203,47 @@ def run_merger(inp, base):
     """Run the real Merger; returns (list of clause codes of the methods that raised, out dir)."""
     from pathlib import Path
     from phylib.io.merge import Merger
+    import phylib.io.merge as mm
     subdirs = materialise(inp, base)
-    out = os.path.join(base, 'out')
-    m = Merger([Path(s) for s in subdirs], Path(out))
-    crashed = []
-    if inp.get('route') == 'merge':
-        # Merger.merge() ends with load_model(out/params.py), which is outside this property and writes
-        # into the merged directory (whitening_mat_inv.npy, see C04): it is stubbed out for this call.
-        import phylib.io.merge as mm
+    # history: earlier merges in this process over (sub)lists of the same probe directories; what they write and
+    # whether they raise is not observed (each is judged as a case of its own elsewhere in the stream) -- only that
+    # the merge observed below does not depend on them
+    for i, idxs in enumerate(inp.get('pre') or []):
+        pm = Merger([Path(subdirs[j]) for j in idxs], Path(os.path.join(base, 'pre%d' % i)))
         saved = mm.load_model
         mm.load_model = lambda *a, **k: None
         try:
-            m.merge()              # an exception here is a crash of the whole case
+            if inp.get('route') == 'merge':
+                pm.merge()
+            else:
+                for name, _ in METHODS:
+                    try:
+                        getattr(pm, name)()
+                    except Exception:
+                        pass
+        except Exception:
+            pass
         finally:
             mm.load_model = saved
-    else:
-        for name, code in METHODS:
+    out = os.path.join(base, 'out')
+    m = Merger([Path(s) for s in subdirs], Path(out))
+    crashed = []
+    for _ in range(max(1, int(inp.get('again') or 1))):
+        if inp.get('route') == 'merge':
+            # Merger.merge() ends with load_model(out/params.py), which is outside this property and writes
+            # into the merged directory (whitening_mat_inv.npy, see C04): it is stubbed out for this call.
+            saved = mm.load_model
+            mm.load_model = lambda *a, **k: None
             try:
-                getattr(m, name)()
-            except Exception:
-                crashed.append(code)
+                m.merge()              # an exception here is a crash of the whole case
+            finally:
+                mm.load_model = saved
+        else:
+            for name, code in METHODS:
+                try:
+                    getattr(m, name)()
+                except Exception:
+                    crashed.append(code)
     return sorted(set(crashed)), out
 
 
